@@ -180,6 +180,9 @@ func ruleWSig(c *Ctx) {
 	extra := func(val map[string]bool) bool {
 		// the argument passed to OutputsHash is a valid index, not the "all outputs" marker -1
 		for a, v := range val {
+			if !strings.Contains(a, "p1") {
+				continue // a closed test (-1 == -1: the marker passed as a constant) has its own value
+			}
 			if v && strings.Contains(a, "== -1)") {
 				return false
 			}
